@@ -89,7 +89,12 @@ ECancel ==
 ERecancel == Is("recancel") /\ KeepM /\ S.st[Ev.n] = "cancelling" /\ Same
 
 ECancelDone ==
-  /\ Is("cancel-done") /\ KeepM /\ Marked("cancel", Ev.n)
+  /\ Is("cancel-done") /\ KeepM /\ Marked("cancel", Ev.n) /\ cfg.cout[Ev.n] = "cancelled"
+  /\ CancelDoneG(cfg, S, Ev.n) /\ S' = CancelDoneF(cfg, S, Ev.n)
+
+(* the clean-up of a cancelled body ends by raising something else           *)
+ECancelRaise ==
+  /\ Is("cancel-raise") /\ KeepM /\ Marked("cancel", Ev.n) /\ cfg.cout[Ev.n] = "exc"
   /\ CancelDoneG(cfg, S, Ev.n) /\ S' = CancelDoneF(cfg, S, Ev.n)
 
 (* entry of a scheduler's co_shutdown(): end of its own run's tidy phase,  *)
@@ -241,6 +246,7 @@ LRaise == UNCHANGED <<cfg, tid>> /\ l' = l + 1 /\ ERaise
 LCancel == UNCHANGED <<cfg, tid>> /\ l' = l + 1 /\ ECancel
 LRecancel == UNCHANGED <<cfg, tid>> /\ l' = l + 1 /\ ERecancel
 LCancelDone == UNCHANGED <<cfg, tid>> /\ l' = l + 1 /\ ECancelDone
+LCancelRaise == UNCHANGED <<cfg, tid>> /\ l' = l + 1 /\ ECancelRaise
 LSshut == UNCHANGED <<cfg, tid>> /\ l' = l + 1 /\ ESshut
 LSshutRet == UNCHANGED <<cfg, tid>> /\ l' = l + 1 /\ ESshutRet
 LSshutCancel == UNCHANGED <<cfg, tid>> /\ l' = l + 1 /\ ESshutCancel
@@ -266,7 +272,7 @@ QCancelProp == UNCHANGED <<cfg, tid>> /\ l' = l /\ KeepM /\ Has /\ \E s \in Sche
 QShutExpire == UNCHANGED <<cfg, tid>> /\ l' = l /\ KeepM /\ Has /\ \E s \in Scheds(cfg) : ShutExpire(s)
 QShutCancelProp == UNCHANGED <<cfg, tid>> /\ l' = l /\ KeepM /\ Has /\ \E s \in Scheds(cfg) : ShutCancelProp(s)
 
-Logged == LRunBegin \/ LStart \/ LEnd \/ LRaise \/ LCancel \/ LRecancel \/ LCancelDone \/ LSshut \/ LSshutRet
+Logged == LRunBegin \/ LStart \/ LEnd \/ LRaise \/ LCancel \/ LRecancel \/ LCancelDone \/ LCancelRaise \/ LSshut \/ LSshutRet
           \/ LSshutCancel \/ LRunEnd \/ LRunExc \/ LDiag \/ LShut \/ LShutDone \/ LShutCancel \/ LTick \/ LSnap
           \/ LTop \/ LTopHang \/ LRes \/ LLeftover \/ LLateHang \/ LStall \/ LShutCancelDone \/ LUserCancel
 Silent == QProcess \/ QTimeout \/ QCancelProp \/ QShutExpire \/ QShutCancelProp
@@ -310,6 +316,7 @@ Why(C, X, e) ==
   ELSE CASE e.k \in {"start", "run-begin"} ->
             (IF n = Root THEN "bad-root-begin"
              ELSE IF X.nstart[n] > 0 THEN "second-start"
+             ELSE IF \E r \in C.req[n] : ~Fin(X, r) /\ C.forever[r] THEN "req-unfinished-forever"
              ELSE IF \E r \in C.req[n] : ~Fin(X, r) THEN "req-unfinished"
              ELSE IF ~Started(X, p) THEN "parent-not-started"
              ELSE IF X.pc[p] # "main" THEN "start-" \o byCause
@@ -325,7 +332,7 @@ Why(C, X, e) ==
        [] e.k = "cancel" ->
             (IF X.st[n] = "running" THEN "spurious-cancel-" \o byCause
              ELSE IF Fin(X, n) THEN "cancel-after-end" ELSE "cancel-other")
-       [] e.k = "cancel-done" -> "cancel-done-early"
+       [] e.k \in {"cancel-done", "cancel-raise"} -> "cancel-done-early"
        [] e.k = "tick" ->
             (IF \E j \in Nodes(C) : AdmitG(C, X, j)
              THEN \* an eligible job is kept waiting although its own scheduler has room
@@ -379,10 +386,19 @@ Why(C, X, e) ==
             (IF ~Terminated(C, X) THEN "results-early"
              ELSE LET bad == {i \in 1..(C.n - 1) : e.sn[i] # ResOf(C, X)[i]}
                       i == CHOOSE x \in bad : \A y \in bad : x <= y
+                      \* the job was given up by its scheduler (cancelled, or never started):
+                      \* what it reports then is also about how that scheduler's run ended
+                      gaveup == IF bad # {} /\ X.st[i + 1] \in {"cancelled", "idle"}
+                                THEN (CASE X.cause[C.parent[i + 1]] = "critical" -> "-parent-aborted-critical"
+                                        [] X.cause[C.parent[i + 1]] = "timeout" -> "-parent-aborted-timeout"
+                                        [] X.cause[C.parent[i + 1]] = "success" -> "-parent-aborted-success"
+                                        [] X.cause[C.parent[i + 1]] = "cancelled" -> "-parent-aborted-cancelled"
+                                        [] OTHER -> "")
+                                ELSE ""
                   IN IF bad = {} THEN "results-other"
-                     ELSE IF IsSched(C, i + 1) THEN "results-nested-scheduler"
+                     ELSE IF IsSched(C, i + 1) THEN "results-nested-scheduler" \o gaveup
                      ELSE IF X.st[i + 1] = "exc" THEN "results-exception"
-                     ELSE "results-job")
+                     ELSE "results-job" \o gaveup)
        [] e.k = "stall" -> "stall-other"
        [] e.k = "ucancel" -> "user-cancel-other"
        [] e.k = "alien" -> "alien-job-" \o e.v
@@ -394,6 +410,7 @@ Why(C, X, e) ==
              ELSE "top-other")
        [] e.k = "leftover" -> "leftover-tasks"
        [] e.k = "late-hang" -> "no-progress-explicit-shutdown"
+       [] e.k = "late-exc" -> "shutdown-raises"
        [] OTHER -> "unknown-event"
 
 (* evaluated as a state constraint: prints, never prunes *)
